@@ -41,7 +41,8 @@ ASSUMPTIONS = [
     "endpoints only acknowledge wire IDs they actually received",
     "StartPingCheck.OldestUnacked rewriting is not judged",
     "tracker window kept at production size (10000): no eviction in this world",
-    "resend cadence is judged with a tolerance of one 0.1 s resend tick",
+    "resend cadence is judged with a slack of max(0.5 s, 20 %) above the configured interval; the retry budget is read "
+    "from ReliableResendInfo.tries_left",
 ]
 
 
@@ -60,7 +61,7 @@ def gen_plan(rng: random.Random, tier: str) -> dict:
         "p_delay": rng.choice([0.0, 0.3, 0.6]) if lossy else 0.0,
         "p_dup": rng.choice([0.0, 0.1, 0.2]) if lossy else 0.0,
         "p_drop": rng.choice([0.0, 0.1, 0.25]) if lossy else 0.0,
-        "tail": round(11 * (resend_every + TICK) + 1.0, 3),
+        "tail": round(11 * (resend_every + max(0.5, 0.2 * resend_every)) + 1.0, 3),
     }
     p_inject = rng.choice([0.1, 0.2, 0.35])
     p_ack = rng.choice([0.1, 0.2, 0.35])
@@ -159,6 +160,11 @@ class AckOracle:
         self.pending_futures: List[Tuple[Injection, asyncio.Future]] = []
         self.expected_spontaneous: List[dict] = []
         self.resend_every = cfg["resend_every"]
+        # the statement says "at the configured cadence": judged with a slack of a few polling ticks, so that a
+        # different (legitimate) polling granularity does not alarm
+        self.cadence_slack = max(0.5, 0.2 * self.resend_every)
+        from hippolyzer.lib.base.message.circuit import ReliableResendInfo
+        self.budget = ReliableResendInfo.__dataclass_fields__["tries_left"].default   # the declared retry budget
         world.arrival_hooks.append(self.on_arrival_done)
         world.emission_hooks.append(self.on_emission)
         world.net.taps.append(self._tap)
@@ -236,10 +242,10 @@ class AckOracle:
                 return self.violate("C05/resend/after-ack", wire=p.pid, direction=direction, acked_at=inj.acked_at,
                                     now=e.t)
             gap = e.t - inj.emit_times[-1]
-            if gap < self.resend_every - 1e-6 or gap > self.resend_every + TICK + 1e-6:
+            if gap < self.resend_every - 1e-6 or gap > self.resend_every + self.cadence_slack + 1e-6:
                 return self.violate("C05/resend/cadence", wire=p.pid, gap=round(gap, 4), resend_every=self.resend_every)
             inj.emit_times.append(e.t)
-            if len(inj.emit_times) > 10:
+            if len(inj.emit_times) > self.budget:
                 return self.violate("C05/resend/over-budget", wire=p.pid, transmissions=len(inj.emit_times))
             return
         # first transmission of something the proxy originated
@@ -423,11 +429,11 @@ class AckOracle:
             n = len(inj.emit_times)
             if inj.acked_at is None:
                 # never acknowledged: must have used exactly its budget and then failed
-                expected_fail_by = inj.emit_times[0] + 10 * (self.resend_every + TICK) + TICK
+                expected_fail_by = inj.emit_times[0] + self.budget * (self.resend_every + self.cadence_slack) + TICK
                 if end_time >= expected_fail_by:
-                    if n != 10:
+                    if n != self.budget:
                         return self.violate("C05/resend/budget", wire=inj.wire, direction=inj.direction,
-                                            transmissions=n, want=10)
+                                            transmissions=n, want=self.budget)
                     self.res.probe("budget_exhausted")
                     if inj.future is not None:
                         if not inj.future.done():
@@ -435,7 +441,7 @@ class AckOracle:
                         if inj.future.cancelled() or not isinstance(inj.future.exception(), TimeoutError):
                             return self.violate("C05/complete/wrong-failure", wire=inj.wire)
             else:
-                late = n == 10 and inj.acked_at >= inj.emit_times[-1] + self.resend_every - 1e-9
+                late = n == self.budget and inj.acked_at >= inj.emit_times[-1] + self.resend_every - 1e-9
                 if not late and inj.future is not None and (not inj.future.done() or inj.future.cancelled()
                                                             or inj.future.exception() is not None):
                     return self.violate("C05/complete/acked-but-not-completed", wire=inj.wire)
